@@ -28,9 +28,12 @@ pub fn class_from(n: u16) -> Option<CLASS> {
     CLASS::try_from(n).ok()
 }
 
-fn record(how: &str, t: u16, with_data: bool) -> Option<(ResourceRecord<'static>, Vec<u8>)> {
+/// opaque payloads: arbitrary bytes, bytes that also read as character-strings / as a name / as an address
+const PAYLOADS: [&[u8]; 5] = [b"\x01\x02\x03", b"\x02ab", b"\x01a\x00", b"\x00", b"\x0a\x00\x00\x01"];
+
+fn record(how: &str, t: u16, with_data: bool, payload: usize) -> Option<(ResourceRecord<'static>, Vec<u8>)> {
     // returns the record (constructed or parsed from wire, by `how`)
-    let data: &'static [u8] = b"\x01\x02\x03";
+    let data: &'static [u8] = PAYLOADS[payload];
     let name = Name::new_unchecked("x.y");
     if how == "constructed" {
         let rdata = if with_data { RData::NULL(t, NULL::new(data).unwrap()) } else { RData::Empty(TYPE::from(t)) };
@@ -41,7 +44,7 @@ fn record(how: &str, t: u16, with_data: bool) -> Option<(ResourceRecord<'static>
         m.extend(t.to_be_bytes());
         m.extend([0, 1, 0, 0, 0, 7]);
         if with_data {
-            m.extend([0, 3]);
+            m.extend((data.len() as u16).to_be_bytes());
             m.extend(data);
         } else {
             m.extend([0, 0]);
@@ -98,7 +101,7 @@ pub fn run(a: &Args) {
     qcodes.extend([251u16, 252, 253, 254, 255]);
     for &t in &tcodes {
         for how in ["constructed", "parsed"] {
-            for with_data in [false, true] {
+            for (with_data, payload) in [(false, 0usize), (true, 0), (true, 1), (true, 2), (true, 3), (true, 4)] {
                 // typed variants with content are exercised by the rdata topic; opaque content here only
                 // for NULL / unknown codes (any bytes are valid content for them)
                 let named = !matches!(TYPE::from(t), TYPE::Unknown(_)) && t != 10;
@@ -110,9 +113,15 @@ pub fn run(a: &Args) {
                 if t == 41 && how == "parsed" {
                     continue; // OPT in the answer section is a different story (C09)
                 }
-                let rec = guarded(|| record(how, t, with_data));
+                let rec = guarded(|| record(how, t, with_data, payload));
                 let rr = match rec {
                     Ok(Some((rr, _))) => rr,
+                    // any bytes are valid content for NULL and for a type the library has no parser for (RFC 3597):
+                    // a message it rejects here is reported (type "not reported at all")
+                    Ok(None) if with_data => {
+                        out.emit(json!({"ev": "MatchType", "cls": format!("match-type {how} opaque rejected"), "t": t, "how": format!("{how}/opaque#{payload}"), "reported": -3, "canon": false, "q": []}));
+                        continue;
+                    }
                     Ok(None) => continue,
                     Err(at) => {
                         out.emit(json!({"ev": "MatchType", "cls": format!("match-type {how}"), "t": t, "how": how, "reported": -2, "canon": false, "q": [], "panic": at}));
@@ -126,12 +135,12 @@ pub fn run(a: &Args) {
                     if let Ok(qt) = QTYPE::try_from(qc) {
                         let m = guarded(|| rr.match_qtype(qt));
                         q.push(json!([qc, m.unwrap_or(false)]));
-                        st.case(("mt", t, how, with_data, qc), true);
+                        st.case(("mt", t, how, with_data, payload, qc), true);
                     }
                 }
                 let kind = if with_data { "opaque" } else { "empty" };
                 out.emit(json!({"ev": "MatchType", "cls": format!("match-type {how} {kind} t={}", if named {"named"} else if t == 10 {"null"} else {"unknown"}),
-                    "t": t, "how": format!("{how}/{kind}"), "reported": reported, "canon": canon, "q": q}));
+                    "t": t, "how": format!("{how}/{kind}#{payload}"), "reported": reported, "canon": canon, "q": q}));
             }
         }
     }
